@@ -81,10 +81,10 @@ Section PyRefine.
   Proof. intros Hl Hv Hfit Hz. unfold pwrote, p_set. rewrite (Hadd buf off v Hl Hv Hfit Hz). reflexivity. Qed.
 
   Definition P_pser (t : ty) : Prop := wf_ty t = true -> forall v buf off, length buf = L -> off mod align t = 0 ->
-    off + bmax t <= L -> zero_from buf off -> psim buf off (enc_body t v) (pw_body Q t v buf off).
+    off + bmax t <= L -> zero_from buf off -> psim buf off (enc_body t v) (pw_body Q enc_prim t v buf off).
 
   Definition P_pserf (t : ty) : Prop := wf_ty t = true -> forall v buf off, length buf = L -> off mod align t = 0 ->
-    off + fmax t <= L -> zero_from buf off -> psim buf off (enc_field t v) (pw_field Q (pw_body Q) t v buf off).
+    off + fmax t <= L -> zero_from buf off -> psim buf off (enc_field t v) (pw_field Q (pw_body Q enc_prim) t v buf off).
 
   Lemma zero_from_later buf a b : a <= b -> zero_from buf a -> zero_from buf b.
   Proof. intros H Hz p Hp. apply Hz. lia. Qed.
@@ -119,7 +119,7 @@ Section PyRefine.
 
   Lemma pser_list e : wf_ty e = true -> P_pserf e -> forall l buf off, length buf = L ->
     off mod align e = 0 -> off + length l * fmax e <= L -> zero_from buf off ->
-    psim buf off (enc_list (enc_field e) l) (pw_list (pw_field Q (pw_body Q) e) l buf off).
+    psim buf off (enc_list (enc_field e) l) (pw_list (pw_field Q (pw_body Q enc_prim) e) l buf off).
   Proof.
     intros Hwf He. induction l as [|x l IH]; intros buf off Hl Ha Hfit Hz; cbn [enc_list pw_list].
     - cbn [psim]. unfold pwrote. rewrite stored_nil. cbn [length]. rewrite Nat.add_0_r. reflexivity.
@@ -142,7 +142,7 @@ Section PyRefine.
 
   Lemma pser_fields fs : Forall P_pserf fs -> forallb wf_ty fs = true -> forall vs buf off omax,
     length buf = L -> off <= omax -> fields_sum fmax fs omax <= L -> zero_from buf off ->
-    psim buf off (enc_fields enc_field fs vs off) (pw_fields (pw_field Q (pw_body Q)) fs vs buf off).
+    psim buf off (enc_fields enc_field fs vs off) (pw_fields (pw_field Q (pw_body Q enc_prim)) fs vs buf off).
   Proof.
     induction 1 as [|f fs Hf Hfs IH]; intros Hwf vs buf off omax Hl Hle Hfit Hz.
     - destruct vs as [|v vs]; cbn [enc_fields pw_fields psim]; [|reflexivity].
@@ -178,7 +178,7 @@ Section PyRefine.
 
   Lemma pser_sel fs : Forall P_pserf fs -> forallb wf_ty fs = true -> forall k x buf off,
     length buf = L -> off mod 8 = 0 -> off + fields_max fmax fs <= L -> zero_from buf off ->
-    psim buf off (enc_sel enc_field fs k x) (pw_sel (pw_field Q (pw_body Q)) fs k x buf off).
+    psim buf off (enc_sel enc_field fs k x) (pw_sel (pw_field Q (pw_body Q enc_prim)) fs k x buf off).
   Proof.
     induction 1 as [|f fs Hf Hfs IH]; intros Hwf k x buf off Hl Ha Hfit Hz; [destruct k; reflexivity|].
     cbn [forallb] in Hwf. apply andb_prop in Hwf. destruct Hwf as [Hwf1 Hwf2]. cbn [fields_max] in Hfit.
@@ -276,7 +276,7 @@ Proof. apply zero_from_fresh. Qed.
 (* ---- the Python serialization refinement, from the two laws ---- *)
 Theorem py_walk_ser_refines_on : forall Q u fs ext v cap, add_law Q (8 * cap) -> hdr_law Q (8 * cap) ->
   wf_ty (TComp u fs ext) = true -> bmax (TComp u fs ext) <= 8 * cap ->
-  py_walk_ser Q (TComp u fs ext) v cap = ser_spec (TComp u fs ext) v cap.
+  py_walk_ser Q enc_prim (TComp u fs ext) v cap = ser_spec (TComp u fs ext) v cap.
 Proof.
   intros Q u fs ext v cap Ha Hh Hwf Hge. set (t := TComp u fs ext) in *. unfold py_walk_ser, ser_spec.
   destruct (Nat.ltb_spec (8 * cap) (bmax t)) as [Hlt|_]; [lia|].
